@@ -528,10 +528,10 @@ def run(ctx):
             gcases.insert(0, dict(id="corpus-" + f, T="G", kind=ln[2], base=int(ln[3]), nodes=int(ln[4]), size=int(ln[5]),
                                   maxfree=int(ln[6]), ops=ln[7:], profile="corpus", nops=len(ln) - 7,
                                   line="corpus-%s %s" % (f, " ".join(ln[1:]))))
-    gonly = [dict(longgen.f4_case("f4-panic", 70), _goonly=True)]        # 230k ops: Go only in the quick tier (the list-based model needs ~2 min)
+    # 230k ops: Go only (the extracted interpreter is not tail recursive and the list-based heap is slow at this length)
+    gonly = [dict(longgen.f4_case("f4-panic", 70), _goonly=True)]
     if thorough:
-        gcases += gonly
-        gonly = []
+        gcases.append(longgen.f4_case("f4-drift3", 3))
 
     # ---------------- run both sides, all families concurrently
     lines = [case_line(c) for c in cases]
@@ -631,6 +631,27 @@ def run(ctx):
         g, m = kgo.get(c["id"]) or [], kml.get(c["id"]) or []
         v = keygen.monitor(c, g)
         if c["T"] == "W":
+            # which branch of Push ran (growth of the inline array, switch to the ring, compaction of tombstones):
+            # from the capacities printed by every push and the Len() observations around it
+            prevcaps, lastn, delta = None, None, 0
+            wb = kstats.setdefault("wait_push_branches", {"growth": 0, "switch_to_ring": 0, "compaction": 0})
+            for op, o in zip(c["ops"], g):
+                if op[0] == "P" and o.startswith("ok/"):
+                    caps = o[3:].split(",")
+                    if prevcaps is not None and len(caps) == 1 and len(prevcaps) == 1 and caps[0] != prevcaps[0] and prevcaps[0] != "-1":
+                        wb["growth"] += 1
+                    if prevcaps is not None and len(prevcaps) == 1 and len(caps) == 2 and op != "P-":
+                        wb["switch_to_ring"] += 1
+                    prevcaps = caps
+                    delta += 1
+                elif op == "p":
+                    delta -= 1 if o != "nil" else 0
+                elif op in ("e", "y"):
+                    prevcaps, lastn, delta = None, None, 0
+                elif op == "n" and o[1:].isdigit():
+                    if lastn is not None and int(o[1:]) < lastn + delta:
+                        wb["compaction"] += 1
+                    lastn, delta = int(o[1:]), 0
             # representation state (from the Go dump) in which each maintenance operation was executed
             last = None
             for op, o in zip(c["ops"], g):
